@@ -13,8 +13,16 @@ Lemma nofault_ok {A} (a : A) : nofault (Ok a). Proof. intros f H; discriminate. 
 Lemma nofault_err {A} c : nofault (@Err A c). Proof. intros f H; discriminate. Qed.
 #[export] Hint Resolve nofault_ok nofault_err : nf.
 
-Lemma len_nat {A} (l : list A) n : (n <=? len l) = true <-> (N.to_nat n <= length l)%nat.
-Proof. unfold len. rewrite N.leb_le. lia. Qed.
+Lemma has_len_spec : forall l n, has_len l n = true <-> (N.to_nat n <= length l)%nat.
+Proof.
+  induction l as [|b t IH]; intros n.
+  - destruct n; simpl; split; intros; try lia; try discriminate; try reflexivity.
+  - destruct n as [|p]; [simpl; split; intros; [lia|reflexivity]|].
+    change (has_len (b :: t) (N.pos p)) with (has_len t (N.pred (N.pos p))). rewrite IH. simpl length. lia.
+Qed.
+
+Lemma len_nat d n : has_bytes d n = true <-> (N.to_nat n <= length (d_rest d))%nat.
+Proof. apply has_len_spec. Qed.
 
 (* ------------------------------------------------------------------------------------------ *)
 (** * Primitives: guarded reads never fault, never move backwards *)
@@ -31,10 +39,9 @@ Lemma read_byte_raw_cases d :
   (d_rest d = [] /\ read_byte_raw d = Err ST_TRUNCATED) \/
   (exists b tl, d_rest d = b :: tl /\ read_byte_raw d = Ok (b, with_reader d tl (d_pos d + 1))).
 Proof.
-  unfold read_byte_raw, has_bytes, get_byte, len. destruct (d_rest d) as [|b tl]; [left|right].
+  unfold read_byte_raw, has_bytes, get_byte. destruct (d_rest d) as [|b tl]; [left|right].
   - split; reflexivity.
-  - exists b, tl. split; [reflexivity|]. simpl length.
-    destruct (1 <=? N.of_nat (S (length tl))) eqn:E; [reflexivity|]. apply N.leb_gt in E. lia.
+  - exists b, tl. split; [reflexivity|]. cbn [has_len N.pred]. destruct tl; reflexivity.
 Qed.
 
 Lemma read_byte_raw_nf d : nofault (read_byte_raw d).
@@ -159,9 +166,9 @@ Proof.
   destruct (N.land (N.shiftr b 4) 15 =? 15).
   - pose proof (read_varint_nf (with_reader d tl (d_pos d + 1))) as Hn.
     destruct (read_varint _) as [[n d2]| |]; auto with nf.
-    + destruct (i32 (Z.of_N n) <? 0)%Z; auto with nf. destruct (remaining d2 <? _); auto with nf.
+    + destruct (i32 (Z.of_N n) <? 0)%Z; auto with nf. destruct (negb (has_bytes d2 _)); auto with nf.
     + intros f0 X; inversion X; subst. eapply Hn; reflexivity.
-  - destruct (Z.of_N (N.land (N.shiftr b 4) 15) <? 0)%Z; auto with nf. destruct (remaining _ <? _); auto with nf.
+  - destruct (Z.of_N (N.land (N.shiftr b 4) 15) <? 0)%Z; auto with nf. destruct (negb (has_bytes _ _)); auto with nf.
 Qed.
 
 Lemma read_list_begin_rem d et c d' : read_list_begin d = Ok (et, c, d') ->
@@ -170,10 +177,10 @@ Proof.
   unfold read_list_begin. destruct (read_byte_raw d) as [[b d1]| |] eqn:RB; try discriminate.
   apply read_byte_raw_rem in RB. destruct RB as (R1 & R2 & R3 & R4).
   assert (G : forall (count : Z) (d2 : decoder),
-    (if (count <? 0)%Z then Err ST_DECODE else if remaining d2 <? Z.to_N count then Err ST_DECODE
+    (if (count <? 0)%Z then Err ST_DECODE else if negb (has_bytes d2 (Z.to_N count)) then Err ST_DECODE
      else Ok (N.land b 15, count, d2)) = Ok (et, c, d') -> d2 = d' /\ (0 <= c)%Z /\ (Z.to_nat c <= rem d')%nat).
-  { intros count d2. destruct (count <? 0)%Z eqn:Neg; [discriminate|]. destruct (remaining d2 <? Z.to_N count) eqn:E; [discriminate|].
-    intros X; inversion X; subst. apply Z.ltb_ge in Neg. apply N.ltb_ge in E. unfold remaining, len, rem in *. repeat split; lia. }
+  { intros count d2. destruct (count <? 0)%Z eqn:Neg; [discriminate|]. destruct (has_bytes d2 (Z.to_N count)) eqn:E; [|discriminate].
+    intros X; inversion X; subst. apply Z.ltb_ge in Neg. apply len_nat in E. unfold rem in *. repeat split; lia. }
   destruct (N.land (N.shiftr b 4) 15 =? 15).
   - destruct (read_varint d1) as [[n d2]| |] eqn:RV; try discriminate.
     apply read_varint_rem in RV. destruct RV as (V1 & V2 & V3 & V4).
@@ -186,7 +193,7 @@ Proof.
   unfold read_map_begin. pose proof (read_varint_nf d) as Hn.
   destruct (read_varint d) as [[n d1]| |]; auto with nf.
   - destruct (i32 (Z.of_N n) <? 0)%Z; auto with nf. destruct (i32 (Z.of_N n) =? 0)%Z; auto with nf.
-    destruct (remaining d1 <? _); auto with nf.
+    destruct (negb (has_bytes d1 _)); auto with nf.
     destruct (read_byte_raw_cases d1) as [[_ H]|(b & tl & _ & H)]; rewrite H; auto with nf.
   - intros f0 X; inversion X; subst. eapply Hn; reflexivity.
 Qed.
@@ -199,10 +206,10 @@ Proof.
   destruct (i32 (Z.of_N n) <? 0)%Z eqn:Neg; [discriminate|]. apply Z.ltb_ge in Neg.
   destruct (i32 (Z.of_N n) =? 0)%Z eqn:Zr.
   { intros X; inversion X; subst. repeat split; try congruence; simpl; lia. }
-  destruct (remaining d1 <? Z.to_N (i32 (Z.of_N n))) eqn:E; [discriminate|]. apply N.ltb_ge in E.
+  destruct (has_bytes d1 (Z.to_N (i32 (Z.of_N n)))) eqn:E; [|discriminate]. apply len_nat in E.
   destruct (read_byte_raw d1) as [[b d2]| |] eqn:RB; try discriminate.
   apply read_byte_raw_rem in RB. destruct RB as (R1 & R2 & R3 & R4).
-  intros X; inversion X; subst. unfold remaining, len, rem in *. repeat split; try congruence; lia.
+  intros X; inversion X; subst. unfold rem in *. repeat split; try congruence; lia.
 Qed.
 
 (* ------------------------------------------------------------------------------------------ *)
@@ -240,11 +247,11 @@ Proof.
 Qed.
 
 Lemma skip_fields_good sk : (forall ft, good_skip (sk ft)) ->
-  forall k d, (rem d < k)%nat ->
+  forall k d, (rem d < length k)%nat ->
     nofault (skip_fields sk k d) /\
     forall d', skip_fields sk k d = Ok d' -> (rem d' <= rem d)%nat /\ length (d_lfid d') = length (d_lfid d).
 Proof.
-  intros G. induction k as [|k IH]; intros d Hk; [lia|]. cbn [skip_fields].
+  intros G. induction k as [|k0 k IH]; intros d Hk; [simpl in Hk; lia|]. simpl in Hk. cbn [skip_fields].
   pose proof (read_field_begin_nf d) as Fn.
   destruct (read_field_begin d) as [[[[ft fid]|] d1]| |] eqn:RF.
   - apply read_field_begin_rem in RF. destruct RF as [R1 R2].
@@ -323,7 +330,7 @@ Proof.
       destruct (MAX_NESTING <=? len (d_lfid d)); [split; [auto with nf | discriminate]|].
       set (d1 := with_lfid d (0%Z :: d_lfid d)).
       destruct (skip_fields_good (fun ft => skip_value fuel ft (depth + 1) false) (fun ft => Hrec ft false)
-                  (S (length (d_rest d1))) d1) as [Sn Sr]; [unfold rem; lia|].
+                  (0 :: d_rest d1) d1) as [Sn Sr]; [unfold rem; simpl; lia|].
       destruct (skip_fields _ _ d1) as [d2| |] eqn:SF.
       + split; [auto with nf|]. intros d' X; inversion X; subst. destruct (Sr d2 eq_refl) as [S1 S2].
         unfold rem in *. simpl in *. split; [lia|]. destruct (d_lfid d2); simpl in *; lia.
@@ -373,8 +380,8 @@ Proof.
   rewrite H. rewrite Hd in E. simpl in E. inversion E; subst b tl. clear E.
   change (N.land 25 15) with 9. change (N.land (N.shiftr 25 4) 15 =? 15) with false. cbv iota.
   change (Z.of_N (N.land (N.shiftr 25 4) 15)) with 1%Z. change (1 <? 0)%Z with false. cbv iota.
-  assert (R : (remaining (with_reader d (repeat 25 n ++ [0]) (d_pos d + 1)) <? Z.to_N 1) = false).
-  { unfold remaining, len. simpl d_rest. rewrite app_length, repeat_length. simpl. apply N.ltb_ge. lia. }
+  assert (R : negb (has_bytes (with_reader d (repeat 25 n ++ [0]) (d_pos d + 1)) (Z.to_N 1)) = false).
+  { apply Bool.negb_false_iff. apply len_nat. simpl d_rest. rewrite app_length, repeat_length. simpl. lia. }
   rewrite R. change (Z.to_nat 1) with 1%nat. cbn [skip_elems].
   rewrite IH by reflexivity. reflexivity.
 Qed.
